@@ -427,17 +427,22 @@ namespace Pistache::Http::Experimental
         }
         else
         {
-            Guard guard(timeoutsLock);
-            auto timerIt = timeouts.find(fd);
-            if (timerIt != std::end(timeouts))
+            // handleTimeout() hands the connection back and may start the next
+            // queued request, which registers its own time-out under
+            // timeoutsLock: do not call it with the lock held
+            std::shared_ptr<Connection> connection;
             {
-                auto connection = timerIt->second.lock();
-                if (connection)
+                Guard guard(timeoutsLock);
+                auto timerIt = timeouts.find(fd);
+                if (timerIt != std::end(timeouts))
                 {
-                    connection->handleTimeout();
-                    timeouts.erase(fd);
+                    connection = timerIt->second.lock();
+                    if (connection)
+                        timeouts.erase(fd);
                 }
             }
+            if (connection)
+                connection->handleTimeout();
         }
     }
 
